@@ -442,7 +442,9 @@ func (p *printer) stmt(s *Stmt) {
 			if c.Default {
 				p.t("default", ":")
 			} else {
-				p.t("case", c.Value, ":")
+				p.t("case")
+				p.t(strings.Fields(c.Value)...)
+				p.t(":")
 			}
 			p.t(NL)
 			p.block(c.Body)
@@ -518,9 +520,11 @@ func (p *printer) leaf(l *Leaf) {
 	if l.Form == FOp {
 		p.t(l.Op)
 		if l.Strict {
-			p.t("value", "(", l.Val, ")")
+			p.t("value", "(")
+			p.t(strings.Fields(l.Val)...)
+			p.t(")")
 		} else {
-			p.t(l.Val)
+			p.t(strings.Fields(l.Val)...)
 		}
 	}
 }
